@@ -2,6 +2,7 @@ package props
 
 import (
 	"fmt"
+	"go/constant"
 	"strings"
 
 	"gcacheck/internal/an"
@@ -16,7 +17,7 @@ func init() {
 		Engines: "LOCK (balance, guarded-by), PRED (decision terms in normal form), dominance",
 		Explanation: "Decided on glow.RateLimiter: the whole body of Allow, including the clock read, is one critical section of RateLimiter.mu (so any concurrent schedule is a sequence of Allow bodies); every access to the request list is under the lock; " +
 			"the admission decision is exactly len(kept) < limit; true is returned only on the path that appends the timestamp read in this call; the retention test is t.After(now.Add(-rate)) on the stored timestamps with the receiver/argument roles as stated, " +
-			"the kept suffix starts at the first retained element and is empty if none is retained. These are shape-conditional necessary conditions: a different algorithm is reported as undecided, not as held. " +
+			"every value the expiry step stores to the list is, on every feasible way it can come about (join phis taken apart, ways refuted by BOUND removed), either the suffix that starts at the index where an upward scan from index 0 first found a retained element, or the empty list on the ways on which no retained element was found. These are shape-conditional necessary conditions: a different algorithm is reported as undecided, not as held. " +
 			"NOT decided: wall-clock behaviour, scheduler effects and the interval-arithmetic judgement over real arrival schedules (inherently dynamic); monotonicity of time.Now is trusted (timestamps are appended in increasing order).",
 		Assumptions: append([]string{"time.Now is monotone within one process (Go monotonic clock reading)", "sync.Mutex provides mutual exclusion"}, baseAssumptions...),
 		Run:         runC19,
@@ -105,7 +106,7 @@ func runC19(c *an.Ctx) {
 		}
 		cases = append(cases, retCase{fi.Term(ret.Results[0]), fi.FactsAt(ret), b, ret})
 	}
-	records := recordStores(fi, allow, nowT)
+	records := recordStores(fi, allow, nowT.Key())
 	isLimitTest := func(t *an.Term) bool {
 		if t.K == an.KBin && t.S == "<" && t.A[0].K == an.KLen {
 			if fld, _, ok := mapFieldOfTerm(t.A[0].A[0]); ok && fld == "reqs" {
@@ -230,7 +231,9 @@ func runC19(c *an.Ctx) {
 	for _, ef := range exps {
 		efi := p.Info(ef.fn)
 		c.Scope(ef.fn)
-		// retention: the only time comparison is stored.After(now.Add(-rate))
+		// retention: the only time comparison is stored.After(now.Add(-rate)), or the same written cutoff.Before(stored)
+		var retain *ssa.Call
+		var storedV ssa.Value
 		for _, b := range ef.fn.Blocks {
 			for _, in := range b.Instrs {
 				call, ok := in.(*ssa.Call)
@@ -244,10 +247,14 @@ func runC19(c *an.Ctx) {
 					continue
 				}
 				nCmp++
-				recv := efi.Term(call.Call.Args[0])
-				arg := efi.Term(call.Call.Args[1])
-				okShape := name == "(time.Time).After"
-				recvOK := recvOrigin(efi, call.Call.Args[0]) == "reqs"
+				sv, cv := call.Call.Args[0], call.Call.Args[1]
+				if name == "(time.Time).Before" {
+					sv, cv = cv, sv // cutoff.Before(stored) is stored.After(cutoff)
+				}
+				recv := efi.Term(sv)
+				arg := efi.Term(cv)
+				okShape := name == "(time.Time).After" || name == "(time.Time).Before"
+				recvOK := recvOrigin(efi, sv) == "reqs"
 				argOK := false
 				if (arg.K == an.KCall || arg.K == an.KPure) && arg.Callee() == "(time.Time).Add" && len(arg.A) == 2 && arg.A[0].Key() == ef.nowK {
 					d := arg.A[1]
@@ -257,12 +264,16 @@ func runC19(c *an.Ctx) {
 						}
 					}
 				}
+				if okShape && recvOK && argOK {
+					retain, storedV = call, sv
+				}
 				c.Check(okShape && recvOK && argOK, "PRED", ef.fn, call.Pos(), an.KeyOf(ef.fn, "retain-pred"),
 					"a stored timestamp t is retained iff t.After(now.Add(-rate)) (spec C19.keep: t - (now - rate) > 0)",
-					"comparison "+name+" receiver "+short(recv.Key())+" argument "+short(arg.Key()))
+					"comparison "+name+" stored "+short(recv.Key())+" cutoff "+short(arg.Key()))
 			}
 		}
-		// kept suffix: reqs = reqs[idx:] or reqs[:0]
+		// kept part: every value stored to reqs by the expiry step is, way by way, the suffix that starts at the first
+		// retained element, or the empty list when the scan found none
 		for _, b := range ef.fn.Blocks {
 			for _, in := range b.Instrs {
 				st, ok := in.(*ssa.Store)
@@ -273,73 +284,282 @@ func runC19(c *an.Ctx) {
 				if f, ok := cls.FieldOf("RateLimiter"); !ok || f != "reqs" {
 					continue
 				}
-				sl, ok := st.Val.(*ssa.Slice)
-				if !ok {
+				isRecord := false
+				for _, r := range recordStores(efi, ef.fn, ef.nowK) {
+					if r == st {
+						isRecord = true
+					}
+				}
+				if isRecord {
 					continue
 				}
-				nSl++
-				vt := efi.Term(sl)
-				key := an.KeyOf(ef.fn, "kept:"+short(vt.Key()))
-				lo, hi := vt.A[1], vt.A[2]
-				hc, _ := hi.IsConst()
-				lc, _ := lo.IsConst()
-				switch {
-				case hc == "0" && lc == "0":
-					// empty: only on the way on which the scan found no unexpired timestamp, i.e. the index variable
-					// still has its initial value (idx == -1, or idx == n for a scan that starts with idx = len)
-					haveEmpty = true
-					okE := false
-					for _, f := range efi.FactsAt(st) {
-						if f.Neg || f.T.K != an.KBin || f.T.S != "==" {
-							continue
-						}
-						for k := 0; k < 2; k++ {
-							ph, isPhi := f.T.A[k].Val.(*ssa.Phi)
-							if !isPhi || f.T.A[k].K != an.KPhi {
-								continue
-							}
-							other := f.T.A[1-k]
-							// the other side is the value the index variable has when the scan loop was never left by break
-							for _, e := range ph.Edges {
-								if efi.Term(e).Key() == other.Key() && !containsPhi(efi.Term(e)) {
-									okE = true
-								}
-							}
-						}
+				if _, isSlice := st.Val.(*ssa.Slice); !isSlice {
+					if _, isPhi := st.Val.(*ssa.Phi); !isPhi {
+						continue
 					}
-					c.Check(okE, "PRED", ef.fn, st.Pos(), key, "the list is emptied only when the scan found no timestamp to retain (the index variable still has its initial value)", "dominating fact idx == initial value; facts "+factList(efi.FactsAt(st)))
-				case hc == "end":
-					haveSuffix = true
-					// reqs[idx:] where idx is set, at the break, to the index of the first retained element
-					okS := false
-					if ph, isPhi := lo.Val.(*ssa.Phi); isPhi && lo.K == an.KPhi {
-						for i, e := range ph.Edges {
-							if !containsPhi(efi.Term(e)) {
-								continue
-							}
-							pred := ph.Block().Preds[i]
-							for _, f := range efi.FactsAtBlock(pred) {
-								if !f.Neg && (f.T.K == an.KCall || f.T.K == an.KPure) && f.T.Callee() == "(time.Time).After" {
-									okS = true
-								}
-							}
-						}
-					}
-					c.Check(okS, "PRED", ef.fn, st.Pos(), key, "the list keeps the suffix that starts at the index where the scan first found t.After(now-rate) (scan from the oldest entry, stop at the first unexpired one)", "lower bound "+short(lo.Key()))
-				default:
-					c.Violated("PRED", ef.fn, st.Pos(), key, "the request list is resliced in an unexpected way: "+short(vt.Key()), "expected reqs[idx:] or reqs[:0]")
 				}
+				nSl++
+				e, sfx := keptStore(c, p, ef.fn, st, retain, storedV)
+				haveEmpty = haveEmpty || e
+				haveSuffix = haveSuffix || sfx
 			}
 		}
 	}
 	if nCmp != 1 {
 		c.Violated("FORM", allow, allow.Pos(), an.KeyOf(allow, "retain-count"), "the expiry step must decide retention by exactly one comparison of a stored timestamp with now-rate; found "+fmt.Sprint(nCmp), "the sliding-window rules are established for this form only")
 	}
-	if !(haveEmpty && haveSuffix && nSl == 2) {
+	if !(haveEmpty && haveSuffix && nSl >= 1 && nSl <= 2) {
 		c.Violated("FORM", allow, allow.Pos(), an.KeyOf(allow, "kept-count"), "the expiry step must store either the suffix that starts at the first unexpired timestamp (reqs[idx:]) or, when none is unexpired, the empty list (reqs[:0]); found "+fmt.Sprint(nSl)+" reslicing store(s): some path keeps expired entries or drops unexpired ones", "the sliding-window rules are established for this form only")
 	}
 	// the expiry runs before the admission test on every path: every store that reslices dominates the limit test / the returns
 	_ = lf
+}
+
+// keptOutcome is one way the value stored to reqs by the expiry step comes about: a slice base[lo:hi] and the facts
+// that hold on that way (join phis of the stored value and of its lower bound are taken apart edge by edge).
+type keptOutcome struct {
+	base, lo, hi *an.Term
+	facts        []an.Fact
+	eqs          [][2]*an.Term
+	unknown      string
+}
+
+// keptStore checks one store of the expiry step; it reports whether an empty and a suffix outcome were seen.
+func keptStore(c *an.Ctx, p *an.Program, fn *ssa.Function, st *ssa.Store, retain *ssa.Call, storedV ssa.Value) (sawEmpty, sawSuffix bool) {
+	fi := p.Info(fn)
+	key := an.KeyOf(fn, "kept:"+short(fi.Term(st.Val).Key()))
+	if retain == nil {
+		c.Violated("PRED", fn, st.Pos(), key, "the request list is resliced but no retention comparison of the stated form was found", "expected t.After(now.Add(-rate))")
+		return
+	}
+	loop := innermostLoopOf(fn, retain.Block())
+	if loop == nil {
+		c.Violated("PRED", fn, st.Pos(), key, "the retention comparison is not inside a scan loop", "expected a scan from the oldest entry")
+		return
+	}
+	isLoopHeader := func(b *ssa.BasicBlock) bool {
+		for _, l := range loopsOf(fn) {
+			if l.header == b {
+				return true
+			}
+		}
+		return false
+	}
+	endFacts := func(pred, blk *ssa.BasicBlock) []an.Fact {
+		var out []an.Fact
+		if n := len(pred.Instrs); n > 0 {
+			out = append(out, fi.FactsAt(pred.Instrs[n-1]).Sorted()...)
+		}
+		out = append(out, fi.EdgeFacts(pred, blk)...)
+		return out
+	}
+	// take the stored value apart
+	var outs []keptOutcome
+	var expand func(v ssa.Value, facts []an.Fact, eqs [][2]*an.Term, depth int)
+	expand = func(v ssa.Value, facts []an.Fact, eqs [][2]*an.Term, depth int) {
+		switch x := v.(type) {
+		case *ssa.Phi:
+			if depth < 4 && !isLoopHeader(x.Block()) && fi.Term(x).K == an.KPhi {
+				for i, e := range x.Edges {
+					pred := x.Block().Preds[i]
+					nf := append(append([]an.Fact{}, facts...), endFacts(pred, x.Block())...)
+					ne := append(append([][2]*an.Term{}, eqs...), [2]*an.Term{fi.Term(x), fi.Term(e)})
+					// the other phis of the join take their values of the same edge
+					for _, in := range x.Block().Instrs {
+						if o, ok := in.(*ssa.Phi); ok && o != x {
+							ne = append(ne, [2]*an.Term{fi.Term(o), fi.Term(o.Edges[i])})
+						}
+					}
+					expand(e, nf, ne, depth+1)
+				}
+				return
+			}
+		case *ssa.Slice:
+			t := fi.Term(x)
+			if t.K == an.KSlice && len(t.A) == 3 {
+				if lo, ok := x.Low.(*ssa.Phi); ok && depth < 4 && !isLoopHeader(lo.Block()) && fi.Term(lo).K == an.KPhi {
+					for i, e := range lo.Edges {
+						pred := lo.Block().Preds[i]
+						nf := append(append([]an.Fact{}, facts...), endFacts(pred, lo.Block())...)
+						ne := append(append([][2]*an.Term{}, eqs...), [2]*an.Term{fi.Term(lo), fi.Term(e)})
+						outs = append(outs, keptOutcome{base: t.A[0], lo: fi.Term(e), hi: t.A[2], facts: nf, eqs: ne})
+					}
+					return
+				}
+				outs = append(outs, keptOutcome{base: t.A[0], lo: t.A[1], hi: t.A[2], facts: facts, eqs: eqs})
+				return
+			}
+		}
+		outs = append(outs, keptOutcome{unknown: short(fi.Term(v).Key()), facts: facts, eqs: eqs})
+	}
+	expand(st.Val, fi.FactsAt(st).Sorted(), nil, 0)
+
+	// the scan: stored = base[I] with I running 0, 1, 2, ...; the loop goes on only past expired entries
+	stT := fi.Term(storedV)
+	var scanI, scanBase *an.Term
+	if stT.K == an.KLoad && len(stT.A) == 1 && stT.A[0].K == an.KIA {
+		scanBase, scanI = stT.A[0].A[0], stT.A[0].A[1]
+	}
+	retT := fi.Term(retain)
+	scanOK := scanI != nil && scanFromZero(fi, scanI, loop)
+	if scanOK {
+		for _, u := range loop.backs {
+			neg := false
+			for _, f := range endFacts(u, loop.header) {
+				if f.Neg && f.T.Key() == retT.Key() {
+					neg = true
+				}
+			}
+			if !neg {
+				scanOK = false
+			}
+		}
+	}
+	if !c.Check(scanOK, "PRED", fn, retain.Pos(), an.KeyOf(fn, "scan"), "the expiry scan visits the stored timestamps from the oldest (index 0) upwards, one by one, and goes on to the next only when the current one is expired", "scan index "+func() string {
+		if scanI == nil {
+			return "not recognised"
+		}
+		return short(scanI.Key())
+	}()) {
+		return
+	}
+	// the edges that leave the scan after a retained element was found, and those that leave it when the list is exhausted
+	type edge struct{ from, to *ssa.BasicBlock }
+	var found []edge
+	for _, b := range fn.Blocks {
+		if !loop.body[b] {
+			continue
+		}
+		for _, sx := range b.Succs {
+			if loop.body[sx] {
+				continue
+			}
+			pos := false
+			for _, f := range endFacts(b, sx) {
+				if !f.Neg && f.T.Key() == retT.Key() {
+					pos = true
+				}
+			}
+			if pos {
+				found = append(found, edge{b, sx})
+			}
+		}
+	}
+	feasibleAfter := func(o keptOutcome, e edge) bool {
+		sys := fi.SysForEdge(e.from, e.to)
+		// the values the phis of the next join take on this way (straight-line blocks in between are passed through)
+		prev, cur := e.from, e.to
+		for steps := 0; steps < 4; steps++ {
+			_, hasPhi := cur.Instrs[0].(*ssa.Phi)
+			if hasPhi || len(cur.Succs) != 1 {
+				break
+			}
+			prev, cur = cur, cur.Succs[0]
+		}
+		for _, in := range cur.Instrs {
+			if ph, ok := in.(*ssa.Phi); ok {
+				for i, pr := range cur.Preds {
+					if pr == prev {
+						sys.AddEq(fi.Term(ph), fi.Term(ph.Edges[i]))
+					}
+				}
+			}
+		}
+		for _, f := range o.facts {
+			sys.AddFact(f)
+		}
+		for _, q := range o.eqs {
+			sys.AddEq(q[0], q[1])
+		}
+		return !sys.Inconsistent()
+	}
+	for _, o := range outs {
+		if o.unknown != "" {
+			c.Violated("PRED", fn, st.Pos(), key, "the request list is replaced by something other than a reslice of itself: "+o.unknown, "expected reqs[idx:] or reqs[:0]")
+			continue
+		}
+		if scanBase == nil || o.base.Key() != scanBase.Key() {
+			c.Violated("PRED", fn, st.Pos(), key, "the kept part is not a reslice of the list that was scanned", "base "+short(o.base.Key()))
+			continue
+		}
+		// an outcome that cannot happen (idx == -1 together with idx = i >= 0) is not an outcome
+		sys := fi.SysFor(st)
+		for _, f := range o.facts {
+			sys.AddFact(f)
+		}
+		for _, q := range o.eqs {
+			sys.AddEq(q[0], q[1])
+		}
+		if sys.Inconsistent() {
+			continue
+		}
+		hc, _ := o.hi.IsConst()
+		lc, _ := o.lo.IsConst()
+		isEmpty := hc == "0" && lc == "0" || hc == "end" && o.lo.Key() == an.LenTerm(o.base).Key()
+		switch {
+		case isEmpty:
+			sawEmpty = true
+			okE := true
+			why := "no way from a retained element reaches this store with these facts"
+			for _, e := range found {
+				if feasibleAfter(o, e) {
+					okE = false
+					why = "reachable after the scan found a retained element (edge from " + p.Pos(e.from.Instrs[len(e.from.Instrs)-1].Pos()) + ")"
+				}
+			}
+			c.Check(okE && len(found) > 0, "PRED", fn, st.Pos(), an.KeyOf(fn, "kept:empty"), "the list is emptied only when the scan found no timestamp to retain", why)
+		case hc == "end":
+			sawSuffix = true
+			okS := o.lo.Key() == scanI.Key()
+			if okS {
+				okS = false
+				for _, f := range o.facts {
+					if !f.Neg && f.T.Key() == retT.Key() {
+						okS = true
+					}
+				}
+			}
+			c.Check(okS, "PRED", fn, st.Pos(), an.KeyOf(fn, "kept:suffix"), "the list keeps the suffix that starts at the index where the scan first found t.After(now-rate) (scan from the oldest entry, stop at the first unexpired one)", "lower bound "+short(o.lo.Key()))
+		default:
+			c.Violated("PRED", fn, st.Pos(), key, "the request list is resliced in an unexpected way: ["+short(o.lo.Key())+":"+short(o.hi.Key())+"]", "expected reqs[idx:] or reqs[:0]")
+		}
+	}
+	return
+}
+
+// scanFromZero: I is the header phi of the loop (or that phi plus a constant) and takes the values 0, 1, 2, ...
+func scanFromZero(fi *an.FuncInfo, I *an.Term, loop *natLoop) bool {
+	phiT, d := I, int64(0)
+	if I.K == an.KBin && I.S == "+" && len(I.A) == 2 {
+		for k := 0; k < 2; k++ {
+			if cv, ok := I.A[k].ConstInt(); ok && I.A[1-k].K == an.KPhi {
+				if v, exact := constant.Int64Val(cv); exact {
+					phiT, d = I.A[1-k], v
+				}
+			}
+		}
+	}
+	ph, ok := phiT.Val.(*ssa.Phi)
+	if !ok || phiT.K != an.KPhi || ph.Block() != loop.header {
+		return false
+	}
+	init, step := false, false
+	for _, e := range ph.Edges {
+		et := fi.Term(e)
+		if cv, ok := et.ConstInt(); ok && et.K == an.KConst {
+			if v, exact := constant.Int64Val(cv); exact && v+d == 0 {
+				init = true
+				continue
+			}
+			return false
+		}
+		if et.Key() == an.NormBin("+", phiT, an.ConstTerm("1")).Key() {
+			step = true
+			continue
+		}
+		return false
+	}
+	return init && step
 }
 
 // recvOrigin returns the RateLimiter field a value was taken from (by index or range).
@@ -373,7 +593,7 @@ func recvOrigin(fi *an.FuncInfo, v ssa.Value) string {
 }
 
 // recordStores: the stores to RateLimiter.reqs of append(reqs, now).
-func recordStores(fi *an.FuncInfo, allow *ssa.Function, nowT *an.Term) []*ssa.Store {
+func recordStores(fi *an.FuncInfo, allow *ssa.Function, nowK string) []*ssa.Store {
 	var out []*ssa.Store
 	for _, b2 := range allow.Blocks {
 		for _, in := range b2.Instrs {
@@ -397,7 +617,7 @@ func recordStores(fi *an.FuncInfo, allow *ssa.Function, nowT *an.Term) []*ssa.St
 				if el == nil {
 					continue
 				}
-				if fi.Term(el).Key() == nowT.Key() {
+				if fi.Term(el).Key() == nowK {
 					out = append(out, st)
 				}
 			}
